@@ -115,7 +115,7 @@ func (d *dec) decodeDatatype(c *cur, depth int) *Datatype {
 	pstart := c.pos
 	at := c.org + uint64(start)
 	what := fmt.Sprintf("datatype message (class %d) at 0x%x", t.Class, at)
-	if t.Version < 1 || t.Version > 5 {
+	if (t.Version < 1 || t.Version > 5) && !(d.lib && t.Class == 9 && t.Version == 0) {
 		d.fail("%s: version %d not in 1..5", what, t.Version)
 	}
 	if t.Version == 5 || t.Class == 11 {
@@ -135,6 +135,15 @@ func (d *dec) decodeDatatype(c *cur, depth int) *Datatype {
 		reservedBits(0xfffff0)
 		t.BigEndian = t.BitField&1 != 0
 		t.Signed = t.BitField&8 != 0
+		if d.lib && c.rem() >= 4 && t.Size <= 8 {
+			// library layout: byte order, precision in bits, offset, padding (one byte each)
+			if p := c.b[c.pos : c.pos+4]; p[0] <= 1 && uint32(p[1]) == t.Size*8 && p[2] == 0 && p[3] == 0 {
+				c.skip(4, "properties")
+				t.BitOffset, t.Precision = 0, uint16(t.Size*8)
+				d.libDev("datatype-fixed-props")
+				break
+			}
+		}
 		t.BitOffset = c.u16("bit offset")
 		t.Precision = c.u16("bit precision")
 		if uint32(t.BitOffset)+uint32(t.Precision) > t.Size*8 || t.Precision == 0 {
@@ -152,6 +161,20 @@ func (d *dec) decodeDatatype(c *cur, depth int) *Datatype {
 		if n := (t.BitField >> 4) & 3; n == 3 {
 			d.fail("%s: mantissa normalization 3 is reserved", what)
 		}
+		if d.lib && c.rem() >= 12 && (t.Size == 4 || t.Size == 8) {
+			// library layout: byte order, precision, offset, exponent bits, mantissa bits, bias (one byte each), six zero bytes
+			if p := c.b[c.pos : c.pos+12]; p[0] <= 1 && uint32(p[1]) == t.Size*8 && p[2] == 0 && allZero(p[6:]) {
+				c.skip(12, "properties")
+				t.BitOffset, t.Precision = 0, uint16(t.Size*8)
+				if t.Size == 4 {
+					t.ExpLoc, t.ExpSize, t.MantLoc, t.MantSize, t.ExpBias = 23, 8, 0, 23, 127
+				} else {
+					t.ExpLoc, t.ExpSize, t.MantLoc, t.MantSize, t.ExpBias = 52, 11, 0, 52, 1023
+				}
+				d.libDev("datatype-float-props")
+				break
+			}
+		}
 		t.BitOffset = c.u16("bit offset")
 		t.Precision = c.u16("bit precision")
 		t.ExpLoc = c.u8("exponent location")
@@ -163,8 +186,10 @@ func (d *dec) decodeDatatype(c *cur, depth int) *Datatype {
 			d.fail("%s: bit offset %d + precision %d does not fit the size of %d bytes", what, t.BitOffset, t.Precision, t.Size)
 		}
 		sign := (t.BitField >> 8) & 0xff
-		if sign >= uint32(t.Precision) || uint32(t.ExpLoc)+uint32(t.ExpSize) > uint32(t.Precision) || uint32(t.MantLoc)+uint32(t.MantSize) > uint32(t.Precision) || t.ExpSize == 0 || t.MantSize == 0 {
-			d.fail("%s: sign location %d / exponent %d+%d / mantissa %d+%d do not fit the precision of %d bits", what, sign, t.ExpLoc, t.ExpSize, t.MantLoc, t.MantSize, t.Precision)
+		// bit positions count from bit 0 of the datatype (the bit offset is included)
+		lo, hi := uint32(t.BitOffset), uint32(t.BitOffset)+uint32(t.Precision)
+		if sign < lo || sign >= hi || uint32(t.ExpLoc) < lo || uint32(t.ExpLoc)+uint32(t.ExpSize) > hi || uint32(t.MantLoc) < lo || uint32(t.MantLoc)+uint32(t.MantSize) > hi || t.ExpSize == 0 || t.MantSize == 0 {
+			d.fail("%s: sign location %d / exponent %d+%d / mantissa %d+%d do not fit the significant bits [%d,%d)", what, sign, t.ExpLoc, t.ExpSize, t.MantLoc, t.MantSize, lo, hi)
 		}
 		if overlap(uint32(t.ExpLoc), uint32(t.ExpSize), uint32(t.MantLoc), uint32(t.MantSize)) || (sign >= uint32(t.ExpLoc) && sign < uint32(t.ExpLoc)+uint32(t.ExpSize)) || (sign >= uint32(t.MantLoc) && sign < uint32(t.MantLoc)+uint32(t.MantSize)) {
 			d.fail("%s: sign bit %d, exponent field %d+%d and mantissa field %d+%d overlap", what, sign, t.ExpLoc, t.ExpSize, t.MantLoc, t.MantSize)
@@ -182,6 +207,11 @@ func (d *dec) decodeDatatype(c *cur, depth int) *Datatype {
 		}
 		if t.CharSet > 1 {
 			d.fail("%s: character set %d not in 0..1", what, t.CharSet)
+		}
+		if d.lib && c.rem() >= 1 && c.b[c.pos] == 0 {
+			// library layout: one property byte (padding/charset) although the class has no properties
+			c.skip(1, "property byte")
+			d.libDev("datatype-string-extra-byte")
 		}
 	case 4: // bit field
 		reservedBits(0xfffff0)
@@ -202,12 +232,21 @@ func (d *dec) decodeDatatype(c *cur, depth int) *Datatype {
 	case 6: // compound
 		reservedBits(0xff0000)
 		n := int(t.BitField & 0xffff)
-		if n == 0 {
-			d.fail("%s: compound datatype with 0 members", what)
-		}
 		offBytes := 4
 		if t.Version >= 3 {
 			offBytes = bytesFor(uint64(t.Size))
+		}
+		if d.lib && t.Version == 3 && n == 0 {
+			// library layout: member count in a 4-byte word in front of the members, 4-byte member offsets
+			cnt := c.u32("member count word")
+			if cnt == 0 || cnt > 0xffff {
+				d.fail("%s: member count word %d", what, cnt)
+			}
+			n, offBytes = int(cnt), 4
+			d.libDev("datatype-compound-v3-layout")
+		}
+		if n == 0 {
+			d.fail("%s: compound datatype with 0 members", what)
 		}
 		for i := 0; i < n; i++ {
 			var m Member
@@ -256,12 +295,13 @@ func (d *dec) decodeDatatype(c *cur, depth int) *Datatype {
 			t.Members = append(t.Members, m)
 		}
 	case 7: // reference
+		reservedBits(0xffff00)
 		t.RefType = int(t.BitField & 0x0f)
-		if t.Version < 4 {
-			reservedBits(0xfffff0)
-			if t.RefType > 1 {
-				d.fail("%s: reference type %d not in 0..1", what, t.RefType)
-			}
+		if t.RefType > 4 {
+			d.fail("%s: reference type %d not in 0..4", what, t.RefType)
+		}
+		if rv := (t.BitField >> 4) & 0x0f; t.RefType < 2 && rv != 0 {
+			d.fail("%s: reference type %d with a non-zero revision field %d", what, t.RefType, rv)
 		}
 	case 8: // enumeration
 		reservedBits(0xff0000)
@@ -270,18 +310,49 @@ func (d *dec) decodeDatatype(c *cur, depth int) *Datatype {
 		if t.Base.Size != t.Size {
 			d.fail("%s: enumeration size %d differs from its base type size %d", what, t.Size, t.Base.Size)
 		}
-		for i := 0; i < n; i++ {
-			if t.Version >= 3 {
-				t.EnumNames = append(t.EnumNames, c.cstr(0, "enum member name"))
-			} else {
+		if d.lib && t.Version == 3 {
+			// library layout: each name NUL-padded to a multiple of 8 and directly followed by its value
+			for i := 0; i < n; i++ {
 				t.EnumNames = append(t.EnumNames, c.cstr(8, "enum member name"))
+				t.EnumValues = append(t.EnumValues, c.bytes(int(t.Base.Size), "enum member value"))
+			}
+			d.libDev("datatype-enum-layout")
+		} else {
+			for i := 0; i < n; i++ {
+				if t.Version >= 3 {
+					t.EnumNames = append(t.EnumNames, c.cstr(0, "enum member name"))
+				} else {
+					t.EnumNames = append(t.EnumNames, c.cstr(8, "enum member name"))
+				}
+			}
+			for i := 0; i < n; i++ {
+				t.EnumValues = append(t.EnumValues, c.bytes(int(t.Base.Size), "enum member value"))
 			}
 		}
-		for i := 0; i < n; i++ {
-			t.EnumValues = append(t.EnumValues, c.bytes(int(t.Base.Size), "enum member value"))
+		for i, nm := range t.EnumNames {
+			if nm == "" {
+				d.fail("%s: enumeration member #%d has an empty name", what, i)
+			}
+			for _, p := range t.EnumNames[:i] {
+				if p == nm {
+					d.fail("%s: enumeration member name %q occurs twice", what, nm)
+				}
+			}
 		}
 	case 9: // variable-length
 		reservedBits(0xfff000)
+		if d.lib && t.Version == 0 {
+			// library layout: version 0, zero class bit field, the type/padding/charset word in front of the base type
+			if t.BitField != 0 {
+				d.fail("%s: version 0 with class bit field 0x%06x", what, t.BitField)
+			}
+			w := c.u32("class word")
+			if w&^uint32(0x01) != 0 {
+				d.fail("%s: version 0 class word 0x%08x", what, w)
+			}
+			t.BitField = w & 0xffffff
+			d.libDev("datatype-vlen-layout")
+		}
 		vt := t.BitField & 0x0f
 		if vt > 1 {
 			d.fail("%s: variable-length type %d not in 0..1", what, vt)
@@ -327,6 +398,59 @@ func (d *dec) decodeDatatype(c *cur, depth int) *Datatype {
 	t.Props = c.b[pstart:c.pos]
 	t.encLen = c.pos - start
 	return t
+}
+
+// libDev notes a library-specific datatype encoding met while decoding in library mode.
+func (d *dec) libDev(name string) {
+	for _, n := range d.libDevs {
+		if n == name {
+			return
+		}
+	}
+	d.libDevs = append(d.libDevs, name)
+}
+
+// datatypeMsg decodes a complete datatype message. With exact set the encoding must fill body
+// completely. When the strict reading fails, the encodings the pinned library is known to write are
+// tried; if they explain the bytes exactly, the corresponding named deviations apply.
+func (d *dec) datatypeMsg(body []byte, at uint64, what string, exact bool) *Datatype {
+	run := func() (t *Datatype, used int, err *specError) {
+		defer func() {
+			if r := recover(); r != nil {
+				if e, ok := r.(*specError); ok {
+					err = e
+					return
+				}
+				panic(r)
+			}
+		}()
+		c := d.cursor(body, at, what)
+		t = d.decodeDatatype(c, 0)
+		return t, c.pos, nil
+	}
+	t, used, serr := run()
+	if serr == nil && (!exact || used == len(body)) {
+		return t
+	}
+	d.lib, d.libDevs = true, nil
+	lt, lused, lerr := run()
+	devs := d.libDevs
+	d.lib, d.libDevs = false, nil
+	if lerr == nil && lused == len(body) && len(devs) > 0 {
+		for _, n := range devs {
+			strict := "the strict reading leaves bytes unexplained"
+			if serr != nil {
+				strict = "strict reading: " + serr.msg
+			}
+			d.deviate(n, "%s at 0x%x: datatype (class %d) uses the library's own property layout (%s)", what, at, lt.Class, strict)
+		}
+		return lt
+	}
+	if serr != nil {
+		panic(serr)
+	}
+	d.fail("%s at 0x%x: the datatype encoding takes %d bytes but the message field holds %d", what, at, used, len(body))
+	return nil
 }
 
 func overlap(a, an, b, bn uint32) bool { return a < b+bn && b < a+an }
@@ -399,8 +523,8 @@ func (d *dec) decodeLayout(b []byte, org uint64) *layoutMsg {
 		case 2:
 			if l.version == 3 {
 				nd := int(c.u8("dimensionality"))
-				if nd < 2 || nd > 33 {
-					d.fail("%s at 0x%x: chunked dimensionality %d not in 2..33", what, org, nd)
+				if nd < 1 || nd > 33 {
+					d.fail("%s at 0x%x: chunked dimensionality %d not in 1..33", what, org, nd)
 				}
 				l.addr = c.addr("chunk B-tree address")
 				for i := 0; i < nd; i++ {
@@ -500,7 +624,7 @@ func (d *dec) decodePipeline(b []byte, org uint64) []Filter {
 		// the pinned library writes version byte 2 over the version 1 layout
 		if fs, ok := d.tryPipelineV1Layout(b, org, n); ok {
 			if _, ok2 := d.tryPipelineV2(b, org, n); !ok2 {
-				d.deviate("filter-pipeline-v2-with-v1-layout", "%s at 0x%x: version byte 2 but the body has the version 1 layout (6 reserved bytes, name length field, padding)", what, org)
+				d.deviate("filter-pipeline-v2-with-v1-layout", "%s at 0x%x: version byte 2 but the body has the version 1 layout (6 reserved bytes, a name length field for every filter, names padded to 8 bytes)", what, org)
 				return fs
 			}
 		}
@@ -623,12 +747,10 @@ func (d *dec) tryPipelineV1Layout(b []byte, org uint64, n int) (fs []Filter, ok 
 		for k := 0; k < ncd; k++ {
 			f.CD = append(f.CD, c.u32("cd"))
 		}
-		if ncd%2 == 1 {
-			c.skip(4, "pad")
-		}
+		// (the library does not pad an odd number of client data values)
 		fs = append(fs, f)
 	}
-	if c.rem() >= 8 {
+	if c.rem() != 0 {
 		return nil, false
 	}
 	return fs, true
@@ -765,6 +887,8 @@ func (d *dec) decodeSharedRef(c *cur) sharedRef {
 	case 1:
 		s.typ = int(c.u8("shared message type"))
 		c.skip(6, "reserved")
+		// version 1 stores the leading part of a symbol table entry: link name offset (unused), then the object header address
+		c.skip(d.L, "name offset of the stored symbol table entry (unused)")
 		s.addr = c.addr("shared object header address")
 		s.typ = 2
 	case 2:
@@ -868,11 +992,7 @@ func (d *dec) decodeAttribute(b []byte, org uint64) Attribute {
 		a.Type = d.decodeDatatype(tc, 0)
 		a.Type.Shared, a.Type.SharedAddr = true, haddr
 	} else {
-		tc := d.cursor(dtb[:dtSize], dtAt, what+" datatype")
-		a.Type = d.decodeDatatype(tc, 0)
-		if tc.pos != dtSize && !(ver == 1 && tc.pos <= dtSize) {
-			d.fail("%s at 0x%x: datatype size field is %d but the encoded datatype takes %d bytes", what, org, dtSize, tc.pos)
-		}
+		a.Type = d.datatypeMsg(dtb[:dtSize], dtAt, what+" datatype", ver != 1)
 	}
 	dsAt := org + uint64(c.pos)
 	dsb := c.bytes(pad(dsSize), "dataspace")
